@@ -21,13 +21,13 @@ pub fn tier_for(property: &str, tier: &str) -> Tier {
     let quick_cfgs = if property == "C10" || property == "C13" {
         vec!["K1", "K2", "K3", "K4", "K5", "K6", "K7"]
     } else if property == "C09" {
-        vec!["K1", "K2", "K3", "K4", "K5", "K8"]
+        vec!["K1", "K2", "K3", "K4", "K5", "K8", "K9"]
     } else {
         vec!["K1", "K2", "K3", "K4", "K5"]
     };
     if thorough {
         Tier {
-            spec_cfgs: vec!["K1", "K2", "K3", "K4", "K5", "K6", "K7", "K8"],
+            spec_cfgs: vec!["K1", "K2", "K3", "K4", "K5", "K6", "K7", "K8", "K9"],
             clients: 3,
             addrs: vec!["192.0.2.9", "192.0.2.10", "192.0.2.11", "198.51.100.10", "10.9.9.9"],
             ticks: vec![1, 150, 299, 300, 301, 30_000, 100_000],
@@ -75,7 +75,7 @@ pub fn run(property: &str, tier: &str, replay: Option<Value>) -> ! {
         rep.finish();
     }
     let t = tier_for(property, tier);
-    let alpha = build_alphabet(&cfgs, &AlphabetSpec { cfgs: &t.spec_cfgs, clients: t.clients, addrs: &t.addrs, ticks: &t.ticks });
+    let alpha = build_alphabet(&cfgs, &AlphabetSpec { rfc4361_clients: property == "C01" || tier == "thorough", cfgs: &t.spec_cfgs, clients: t.clients, addrs: &t.addrs, ticks: &t.ticks });
     if let Err(e) = self_test(&cfgs, &alpha) {
         rep.machinery_error(format!("determinism self-test: {e}"));
         rep.finish();
@@ -185,7 +185,7 @@ pub fn run(property: &str, tier: &str, replay: Option<Value>) -> ! {
     // narrow and deep: one two-address pool, two clients, plain DISCOVER / REQUEST, two clock steps
     if property == "C01" || property == "C09" {
         let narrow = Alphabet {
-            ops: build_alphabet(&cfgs, &AlphabetSpec { cfgs: &["K1"], clients: 2, addrs: &[], ticks: &[150, 301] })
+            ops: build_alphabet(&cfgs, &AlphabetSpec { rfc4361_clients: false, cfgs: &["K1"], clients: 2, addrs: &[], ticks: &[150, 301] })
                 .ops
                 .into_iter()
                 .filter(|o| match o {
